@@ -379,6 +379,36 @@ fn one_case(id: String, rng: &mut Rng, hostile: bool, mech: Mech) -> Case {
             return c;
         }
         Ok(Err(e)) => {
+            // oracle (structured stream): if, for every required structure type, the FIRST admissible
+            // capability (vendor id, long enough, inside configuration space, non-reserved BAR index) is
+            // valid — inside an allocated memory BAR, long enough, aligned — the device must be accepted;
+            // capabilities the specification tells the driver to ignore must not get in the way.
+            if lay.wellformed && !matches!(e, VirtioPciError::InvalidVendorId(_) | VirtioPciError::InvalidDeviceId(_)) {
+                let high = high_slots(&lay.decls);
+                let bars_valid = (0..6).all(|i| high[i] || !(lay.decls[i].kind == Kind::MemRsvd || (lay.decls[i].kind == Kind::Mem64 && i == 5)));
+                let mut all_good = bars_valid;
+                for (ty, need, align, required) in [(1u8, 56u64, 8u64, true), (2, 2, 2, true), (3, 1, 1, true), (4, 4, 4, false)] {
+                    let first = lay.chain.iter().find(|s| s.id == 9 && s.cfg_type == ty && s.cap_len >= if ty == 2 { 20 } else { 16 } && s.off as usize + s.cap_len as usize <= 256 && s.bar_word & 0xff <= 5);
+                    match first {
+                        None => all_good &= !required,
+                        Some(sp) => {
+                            let b = (sp.bar_word & 0xff) as usize;
+                            let d = &lay.decls[b];
+                            let ok = !high[b]
+                                && d.is_memory()
+                                && d.addr != 0
+                                && sp.offset as u64 + sp.length as u64 <= d.size()
+                                && sp.length as u64 >= need
+                                && (d.addr.wrapping_add(sp.offset as u64)) % align == 0
+                                && (ty != 2 || sp.mult % 2 == 0);
+                            all_good &= ok;
+                        }
+                    }
+                }
+                if all_good {
+                    c.fail(format!("PciTransport::new failed with {} although the first admissible capability of every required type is valid (capabilities that must be ignored got in the way?)", err_str(&e)));
+                }
+            }
             c.step(op, format!("err {} | {} | {}", err_str(&e), trace, st));
             c.tag(format!("new=err:{}", err_str(&e).split('(').next().unwrap()));
             return c;
